@@ -371,7 +371,8 @@ class PageBreakCalculator(BaseModel):
                             break
                 for level, col in enumerate(page_by):
                     val = df[col][row_idx]
-                    if str(val) == "-----":
+                    # No spanning row is rendered for a divider or a null value
+                    if val is None or str(val) == "-----":
                         continue
                     level_rows = self._calculate_header_rows(
                         str(val), total_width, font_size=int(font_size)
